@@ -1364,3 +1364,96 @@ Proof.
   - exact Hlq.
   - exact Hold.
 Qed.
+
+(** ---- every step preserves the invariant and is accepted by the monitor ---- *)
+Lemma mon_run_one : forall m e m', mon_step m e = MOk m' -> mon_run m [e] = MOk m'.
+Proof. intros m e m' H. cbn. rewrite H. reflexivity. Qed.
+
+Lemma mon_run_app : forall a b m,
+  mon_run m (a ++ b) = match mon_run m a with MOk m1 => mon_run m1 b | MBad c => MBad c end.
+Proof.
+  induction a as [|e a IH]; intros b m; cbn; [reflexivity|].
+  destruct (mon_step m e); [apply IH|reflexivity].
+Qed.
+
+Lemma start_inv : forall s m t o, Inv s m ->
+  exists m', mon_run m (snd (start s t o)) = MOk m' /\ Inv (fst (start s t o)) m'.
+Proof.
+  intros s m t o HI.
+  destruct (get_pc s t) eqn:Hpc;
+    try (exists m; unfold start; rewrite Hpc; split; [reflexivity|exact HI]).
+  destruct o as [c cap|tp c|id|tp d| |c|c].
+  - exists m. split; [|apply inv_start_chan; exact HI].
+    unfold start. rewrite Hpc. destruct (lookup (chans s) c); reflexivity.
+  - destruct (inv_start_sub s m t tp c HI Hpc) as [m' [H1 H2]]. exists m'. split; [|exact H2].
+    unfold start. rewrite Hpc. cbn [snd]. apply mon_run_one. exact H1.
+  - destruct (inv_start_wait s m t (OUnsub id) _ HI Hpc eq_refl) as [m' [H1 H2]]. exists m'.
+    unfold start. rewrite Hpc. cbn [fst snd]. split; [apply mon_run_one; exact H1|exact H2].
+  - destruct (inv_start_wait s m t (OPub tp d) _ HI Hpc eq_refl) as [m' [H1 H2]]. exists m'.
+    unfold start. rewrite Hpc. cbn [fst snd]. split; [apply mon_run_one; exact H1|exact H2].
+  - destruct (inv_start_wait s m t OLen _ HI Hpc eq_refl) as [m' [H1 H2]]. exists m'.
+    unfold start. rewrite Hpc. cbn [fst snd]. split; [apply mon_run_one; exact H1|exact H2].
+  - apply inv_start_recv; assumption.
+  - apply inv_start_close; assumption.
+Qed.
+
+Lemma wait_step_inv : forall s m t p', Inv s m -> waiting (get_pc s t) = true ->
+  acquired s (get_pc s t) = Some p' ->
+  (forall tp d, get_pc s t <> PubWait tp d) -> nonpub_acq (get_pc s t) p' ->
+  exists m', mon_run m (snd (step_task s t)) = MOk m' /\ Inv (fst (step_task s t)) m'.
+Proof.
+  intros s m t p' HI Hw Ha Hnp Hacq. unfold step_task. rewrite Ha.
+  destruct (lock s) as [h|] eqn:Hl.
+  - exists m. cbn [fst snd]. split; [|exact HI]. apply mon_run_one. exact (mon_blocked s m t h HI Hl Hw).
+  - exists m. destruct (get_pc s t) eqn:Hpc; try (exfalso; eapply Hnp; reflexivity);
+      cbn [fst snd]; (split; [reflexivity|]); apply inv_acquire; try assumption; rewrite Hpc; exact Hacq.
+Qed.
+
+Lemma step_task_inv : forall s m t, Inv s m ->
+  exists m', mon_run m (snd (step_task s t)) = MOk m' /\ Inv (fst (step_task s t)) m'.
+Proof.
+  intros s m t HI.
+  destruct (get_pc s t) as [ |id tp c|id tp c|id|id| | |tp d|tp d rest pr|pr|pr] eqn:Hpc.
+  - exists m. rewrite (step_task_idle s t Hpc). split; [reflexivity|exact HI].
+  - apply (wait_step_inv s m t (SubHold id tp c) HI); rewrite Hpc; try reflexivity. intros; discriminate.
+  - eapply inv_sub_hold; eassumption.
+  - apply (wait_step_inv s m t (UnsubHold id) HI); rewrite Hpc; try reflexivity. intros; discriminate.
+  - eapply inv_unsub_hold; eassumption.
+  - apply (wait_step_inv s m t LenHold HI); rewrite Hpc; try reflexivity. intros; discriminate.
+  - eapply inv_len_hold; eassumption.
+  - destruct (lock s) as [h|] eqn:Hl.
+    + exists m. unfold step_task. rewrite Hpc. cbn [acquired]. rewrite Hl. cbn [fst snd]. split; [|exact HI].
+      apply mon_run_one. apply (mon_blocked s m t h HI Hl). rewrite Hpc. reflexivity.
+    + eapply inv_pub_acquire; eassumption.
+  - destruct rest as [|e rest].
+    + eapply inv_fan_done; eassumption.
+    + destruct (inv_fan_step s m t tp d e rest pr HI Hpc) as [H1 H2]. exists m. rewrite H1. split; [reflexivity|exact H2].
+  - apply (wait_step_inv s m t (PruneHold pr) HI); rewrite Hpc; try reflexivity. intros; discriminate.
+  - eapply inv_prune_hold; eassumption.
+Qed.
+
+Lemma step_inv : forall s m e, Inv s m ->
+  exists m', mon_run m (snd (step s e)) = MOk m' /\ Inv (fst (step s e)) m'.
+Proof. intros s m [t o|t] HI; [apply start_inv|apply step_task_inv]; exact HI. Qed.
+
+Lemma run_from_inv : forall sched s m, Inv s m ->
+  exists m', mon_run m (snd (run_from s sched)) = MOk m' /\ Inv (fst (run_from s sched)) m'.
+Proof.
+  induction sched as [|e r IH]; intros s m HI; cbn [run_from].
+  - exists m. split; [reflexivity|exact HI].
+  - destruct (step_inv s m e HI) as [m1 [H1 H2]]. destruct (step s e) as [s1 o1]. cbn [fst snd] in *.
+    destruct (IH s1 m1 H2) as [m2 [H3 H4]]. destruct (run_from s1 r) as [s2 o2]. cbn [fst snd] in *.
+    exists m2. split; [|exact H4]. rewrite mon_run_app, H1. exact H3.
+Qed.
+
+(** Headline: on every schedule the model's own trace satisfies the monitor. *)
+Theorem run_ok : forall sched, ok_C20 (run sched) = true.
+Proof.
+  intro sched. unfold ok_C20, mon_code, run.
+  destruct (run_from_inv sched init m_init inv_init) as [m' [H _]]. rewrite H. reflexivity.
+Qed.
+
+(** every reachable state satisfies the invariant, coupled with the monitor state *)
+Theorem reachable_inv : forall sched, exists m,
+  mon_run m_init (run sched) = MOk m /\ Inv (fst (run_from init sched)) m.
+Proof. intro sched. exact (run_from_inv sched init m_init inv_init). Qed.
